@@ -174,6 +174,7 @@ class PropertyRun:
                 rep.models = sorted(ex.used_models)
                 rep.abstracted = [f"loop #{k} at line {ln} of {fq} abstracted (write set havocked, body not verified)" for fq, k, ln in ex.abstracted_loops]
                 self.trusted |= ex.used_models
+                self.used_contracts = getattr(self, "used_contracts", set()) | ex.used_contracts
                 if not any(o.kind != "cover" for o in obls):
                     rep.error = "zero obligations generated"
             except VCError as e:
